@@ -55,7 +55,16 @@ def run(prop, tier):
             p = os.path.join(cdir, name + ".c3d")
             open(p, "wb").write(c3dref.encode(content, L))
             c12.append(p)
-        allfiles = paths + c12
+        # two well-formed files with a very long run of zero bytes before the header (declared-supported layout, any length)
+        import gen
+        longz = []
+        for k, nz in enumerate((300000, 1200000)):
+            content, L, meta = gen.gen_case(C.seed(), 990000 + k)
+            L["zeros"] = nz
+            p = os.path.join(cdir, "long_zero_run_%d.c3d" % nz)
+            open(p, "wb").write(c3dref.encode(content, L))
+            longz.append(p)
+        allfiles = paths + c12 + longz
         lst = os.path.join(wd, "all.txt")
         open(lst, "w").write("\n".join(allfiles) + "\n")
         import damage
